@@ -27,10 +27,25 @@ SIMPLE_STRINGS = ['x', 'abc', 'red', 'k', 'v', 'hello', 'a b', 'bad', 'badge']
 KEY_STRINGS = ['k', 'j', 'key', 'some_key', 'some-key', 'x', 'a', 'n_1', 'n-1']
 
 
+@st.composite
+def numberish(draw):
+    """Strings built like numbers: sign, digits (with _ separators), fraction,
+    exponent, radix prefixes, sexagesimal parts - most are *not* numbers."""
+    digs = st.text(alphabet='0123456789_', min_size=0, max_size=4)
+    out = draw(st.sampled_from(['', '', '-', '+']))
+    out += draw(st.sampled_from(['', '', '', '0x', '0o', '0b', '0']))
+    out += draw(digs)
+    if draw(st.booleans()):
+        out += draw(st.sampled_from(['.', '.', ':', '._'])) + draw(digs)
+    if draw(st.booleans()):
+        out += draw(st.sampled_from(['e', 'E', 'e+', 'e-', 'E+', 'e_'])) + draw(digs)
+    return out
+
+
 def strings(hard=True):
     pools = [st.sampled_from(SIMPLE_STRINGS)]
     if hard:
-        pools += [st.sampled_from(HARD_STRINGS),
+        pools += [st.sampled_from(HARD_STRINGS), numberish(),
                   st.text(max_size=6),
                   st.text(alphabet=st.characters(blacklist_categories=('Cs',)),
                           max_size=10)]
